@@ -864,9 +864,13 @@ fn judge_dir(run: &Run, roots_ext: &[String], roots_con: &[String], dir: &Dir) -
 	let id = run.counter.fetch_add(1, std::sync::atomic::Ordering::Relaxed);
 	let path = run.root.join(format!("d{id}"));
 	let root_text = if dir.extended_root { &roots_ext[dir.root_index] } else { &roots_con[dir.root_index] };
-	let mut files: Vec<(String, String)> = vec![(format!("{}.tiny", dir.nodes[0].name), root_text.clone())];
+	// the order of the entries inside the files (the format prescribes none): as printed / reversed (a nested class
+	// before its outer class, the last member first) / rotated, a function of the directory's label
+	let file_order = (vcore::hash64(&dir.label) % 3) as usize;
+	st.outcome(&format!("history:file-order-{}", ["sorted", "reversed", "rotated"][file_order]));
+	let mut files: Vec<(String, String)> = vec![(format!("{}.tiny", dir.nodes[0].name), super::texts::reorder(root_text, file_order))];
 	for (p, c, text) in &dir.edges {
-		files.push((format!("{}#{}.tinydiff", dir.nodes[*p].name, dir.nodes[*c].name), text.clone()));
+		files.push((format!("{}#{}.tinydiff", dir.nodes[*p].name, dir.nodes[*c].name), super::texts::reorder(text, file_order)));
 	}
 	{
 		let mut names: BTreeSet<&str> = BTreeSet::new();
@@ -1130,6 +1134,7 @@ fn plan(sh: &Shared, quick: bool) -> (Vec<Item>, Value) {
 		"versions_per_directory_meaning": "the tree of a work item is laid out as several directories, each the way from the root to some version plus complete subtrees below it",
 		"naming": "a third of the versions (and every second root) carry client~server names",
 		"creation_orders": "sorted, reversed, rotated by a third, alternating by directory",
+		"order_of_entries_inside_the_files": "as printed (sorted), reversed at every level (nested classes before their outer classes, last member first), rotated by one at every level; a function of the directory's label",
 		"large_shapes": {"chain_edges": chain, "fan_children": fan, "fan_children_with_names_from_the_wild_list": WILD_NAMES.len(), "ladder_diamonds": ladder, "high_ladders_diamonds": if quick { vec![40] } else { vec![40, 200] }},
 		"webs_of_diamonds": "per root state: every single step and, for every two single steps that commute, the version both lead to (two parents, two equally long paths)",
 	});
@@ -1179,6 +1184,9 @@ pub fn run(run: &Run, quick: bool) -> Out {
 	floors.push(("histories: large shapes resolved (chain, fan, ladder)".into(), 3, st.get("history:directories:chain") + st.get("history:directories:fan") + st.get("history:directories:ladder")));
 	floors.push(("histories: versions with two parents in the webs of diamonds answered right".into(), 100, st.get("history:two-parent-versions-answered")));
 	floors.push(("histories: steps left out because the extension is not defined (the filter ran)".into(), 1, st.get("history:steps-left-out:extension-undefined")));
+	for mode in ["sorted", "reversed", "rotated"] {
+		floors.push((format!("histories: directories whose files list their entries in {mode} order"), 10, st.get(&format!("history:file-order-{mode}"))));
+	}
 	Out { st, bounds, floors, items: items.len() as u64 }
 }
 
